@@ -12,11 +12,17 @@ Lemma viewok_set_body_focus s f : ViewOK (set_body_focus s f) <-> ViewOK s.
 Proof. unfold ViewOK. cbn. tauto. Qed.
 Lemma viewok_set_items s its f : ViewOK (set_items s its f) <-> ViewOK s.
 Proof. unfold ViewOK. cbn. tauto. Qed.
+Lemma viewok_set_vpend s v : ViewOK (set_vpend s v) <-> ViewOK s.
+Proof. unfold ViewOK. cbn. tauto. Qed.
+Lemma viewok_clear_pending s : ViewOK (clear_pending s) <-> ViewOK s.
+Proof. unfold ViewOK. cbn. tauto. Qed.
 
 Lemma pres_shift s m oi s' : shift_focus s m oi = Ok s' -> ViewOK s'.
 Proof. intros H. now destruct (shift_focus_writes _ _ _ _ H). Qed.
 Lemma pres_change s m p oi cf s' : change_focus s m p oi cf = Ok s' -> ViewOK s'.
 Proof. intros H. now destruct (change_focus_writes _ _ _ _ _ _ H). Qed.
+Lemma pres_change_sr s m p oi cf sr s' : change_focus_sr s m p oi cf sr = Ok s' -> ViewOK s'.
+Proof. intros H. now destruct (change_focus_sr_writes _ _ _ _ _ _ _ H). Qed.
 
 Lemma pres_mcv s m s' : ViewOK s -> make_cursor_visible s m = Ok s' -> ViewOK s'.
 Proof.
@@ -33,16 +39,22 @@ Lemma pres_first_selectable s m ff s' : ViewOK s -> set_focus_first_selectable s
 Proof.
   intros Hs. unfold set_focus_first_selectable.
   destruct (visible _ _ _ _ _ _ _) as [[v|]|]; [| |discriminate].
-  - destruct (sel_at _ _); [intros [= <-]; now apply viewok_set_pend|].
+  - destruct (sel_at _ _); [intros [= <-]; now apply viewok_clear_pending|].
     destruct (first_sel_scan _ _ _) as [[pos nro]|]; [apply pres_shift|].
-    intros [= <-]. now apply viewok_set_pend.
-  - intros [= <-]. now apply viewok_set_pend.
+    intros [= <-]. now apply viewok_clear_pending.
+  - intros [= <-]. now apply viewok_clear_pending.
 Qed.
 
-Lemma pres_complete s m ff s' : ViewOK s -> set_focus_complete s m ff = Ok s' -> ViewOK s'.
+Lemma pres_valign_complete s m ff va s' : ViewOK s -> set_focus_valign_complete s m ff va = Ok s' -> ViewOK s'.
 Proof.
-  intros Hs. unfold set_focus_complete.
-  destruct (pend s) as [| |cf old]; [now intros [= <-] | now apply pres_first_selectable |].
+  intros Hs. unfold set_focus_valign_complete.
+  destruct (nthz _ _); [apply pres_shift|]. intros [= <-]. now apply viewok_clear_pending.
+Qed.
+
+Lemma pres_pending_complete s m ff s' : ViewOK s -> set_focus_pending_complete s m ff = Ok s' -> ViewOK s'.
+Proof.
+  intros Hs. unfold set_focus_pending_complete.
+  destruct (pend s) as [| |cf old]; [now intros [= <-] | now intros [= <-] |].
   cbn [items focus set_pend].
   destruct (nthz (items s) (focus s)) as [neww|]; [|intros [= <-]; now apply viewok_set_pend].
   destruct (old =? focus s); [intros [= <-]; now apply viewok_set_pend|].
@@ -51,6 +63,13 @@ Proof.
   destruct (find_above _ _ _); [apply pres_change|].
   destruct (find_below _ _ _); [apply pres_change|].
   apply pres_shift.
+Qed.
+
+Lemma pres_complete s m ff s' : ViewOK s -> set_focus_complete s m ff = Ok s' -> ViewOK s'.
+Proof.
+  intros Hs. unfold set_focus_complete.
+  destruct (pend s) as [| |cf old]; try (now apply pres_first_selectable);
+    (destruct (vpend s) as [va|]; [now apply pres_valign_complete | now apply pres_pending_complete]).
 Qed.
 
 Lemma pres_calculate_visible s m ff s' ov : ViewOK s -> calculate_visible s m ff = Ok (s', ov) -> ViewOK s'.
@@ -147,18 +166,130 @@ Proof.
         -- intros H; apply (pres_lift_k _ _ _ H); intros s1; apply pres_shift.
 Qed.
 
+(* ------------------------------------------------------------------------------------- *)
+(* page up / page down: every state they can return was written by one of the two writers *)
+Definition pres_ok (r : pres) : Prop :=
+  match r with PDone s' => ViewOK s' | PCont st => ViewOK (p_s st) end.
+
+Lemma pres_pd_loop1 m sr t : forall order st r, ViewOK (p_s st) -> pd_loop1 m sr t order st = Ok r -> pres_ok r.
+Proof.
+  induction order as [|i rest IH]; intros st r Hs; cbn [pd_loop1]; [now intros [= <-]|].
+  destruct (nthz t i) as [[[ro pos] rows]|]; [|discriminate]. cbn [p_s].
+  destruct (negb (sel_at (items (p_s st)) pos)); [apply IH; assumption|].
+  destruct (rows =? 0); [apply IH; assumption|].
+  match goal with |- context [match ?c with Ok _ => _ | Err _ => _ end] => destruct c as [s'|] eqn:Ec end; [|discriminate].
+  assert (Hs' : ViewOK s').
+  { destruct (m <=? ro); eapply pres_change_sr; eassumption. }
+  destruct (visible _ _ _ _ _ _ _) as [[v|]|]; [| discriminate | discriminate].
+  destruct (v_off_inset v <? ro - sr); [apply IH; assumption|].
+  destruct (ro <? v_off_inset v); [apply IH; assumption|].
+  destruct (m <? v_off_inset v + rows); [apply IH; assumption|].
+  now intros [= <-].
+Qed.
+
+Lemma pres_pu_loop1 m sr t : forall order st r, ViewOK (p_s st) -> pu_loop1 m sr t order st = Ok r -> pres_ok r.
+Proof.
+  induction order as [|i rest IH]; intros st r Hs; cbn [pu_loop1]; [now intros [= <-]|].
+  destruct (nthz t i) as [[[ro pos] rows]|]; [|discriminate]. cbn [p_s].
+  destruct (negb (sel_at (items (p_s st)) pos)); [apply IH; assumption|].
+  destruct (rows =? 0); [apply IH; assumption|].
+  match goal with |- context [match ?c with Ok _ => _ | Err _ => _ end] => destruct c as [s'|] eqn:Ec end; [|discriminate].
+  assert (Hs' : ViewOK s').
+  { destruct (rows + ro <=? 0); eapply pres_change_sr; eassumption. }
+  destruct (visible _ _ _ _ _ _ _) as [[v|]|]; [| discriminate | discriminate].
+  destruct (ro + sr <? v_off_inset v); [apply IH; assumption|].
+  destruct (v_off_inset v <? ro); [apply IH; assumption|].
+  destruct (v_off_inset v <? 0); [apply IH; assumption|].
+  now intros [= <-].
+Qed.
+
+Lemma pres_pd_loop2 s m sr fpos t : forall order ro s' ro', pd_loop2 s m sr fpos t order ro = Ok (Some s', ro') -> ViewOK s'.
+Proof.
+  induction order as [|i rest IH]; intros ro s' ro'; cbn [pd_loop2]; [discriminate|].
+  destruct (nthz t i) as [[[ro0 pos] rows]|]; [|discriminate].
+  destruct (pos =? fpos); [apply IH|]. destruct (rows =? 0); [apply IH|].
+  destruct (m <=? ro0);
+    (destruct (change_focus_sr _ _ _ _ _ _) as [s1|] eqn:Ec; [|discriminate]; intros [= <- _]; eapply pres_change_sr; eassumption).
+Qed.
+
+Lemma pres_pu_loop2 s m sr fpos t : forall order ro s' ro', pu_loop2 s m sr fpos t order ro = Ok (Some s', ro') -> ViewOK s'.
+Proof.
+  induction order as [|i rest IH]; intros ro s' ro'; cbn [pu_loop2]; [discriminate|].
+  destruct (nthz t i) as [[[ro0 pos] rows]|]; [|discriminate].
+  destruct (pos =? fpos); [apply IH|]. destruct (rows =? 0); [apply IH|].
+  destruct (rows + ro0 <=? 0);
+    (destruct (change_focus_sr _ _ _ _ _ _) as [s1|] eqn:Ec; [|discriminate]; intros [= <- _]; eapply pres_change_sr; eassumption).
+Qed.
+
+Lemma pres_page_down s m s' b : ViewOK s -> keypress_page_down s m = Ok (s', b) -> ViewOK s'.
+Proof.
+  intros Hs. unfold keypress_page_down.
+  destruct (visible _ _ _ _ _ _ _) as [[v|]|]; [| now intros [= <- _] | discriminate].
+  destruct (pd_gather s m v) as [[sr t0] srs]. destruct t0 as [|x0 tl]; [discriminate|].
+  set (t := pd_candidates s m v).
+  destruct (pd_loop1 _ _ _ _ _) as [[s1|st]|] eqn:E1; [| |discriminate].
+  - intros [= <- _]. change (pres_ok (PDone s1)). eapply pres_pd_loop1; [|exact E1]. exact Hs.
+  - assert (Hst : pres_ok (PCont st)) by (eapply pres_pd_loop1; [|exact E1]; exact Hs). cbn in Hst.
+    destruct (p_cut st); [now intros [= <- _]|].
+    destruct (pd_loop2 _ _ _ _ _ _ _) as [[[s2|] ro2]|] eqn:E2; [| |discriminate].
+    + intros [= <- _]. eapply pres_pd_loop2; eassumption.
+    + destruct (shift_focus _ _ _) as [s3|] eqn:E3; [|discriminate].
+      pose proof (pres_shift _ _ _ _ E3) as Hs3.
+      destruct (visible _ _ _ _ _ _ _) as [[v2|]|]; [| discriminate | discriminate].
+      destruct (v_off_inset v2 <=? ro2); [now intros [= <- _]|].
+      destruct (rev t) as [|xl rt]; [now intros [= <- _]|].
+      destruct (nthz (items s3) (t_pos xl + 1)); [|now intros [= <- _]].
+      intros H. apply (pres_lift_k _ _ _ H). intros sx. apply pres_change_sr.
+Qed.
+
+Lemma pres_page_up s m s' b : ViewOK s -> keypress_page_up s m = Ok (s', b) -> ViewOK s'.
+Proof.
+  intros Hs. unfold keypress_page_up.
+  destruct (visible _ _ _ _ _ _ _) as [[v|]|]; [| now intros [= <- _] | discriminate].
+  destruct (pu_for _ _ _) as [t1 ro1]. destruct (pu_while _ _ _ _ _) as [t2 srs].
+  match goal with |- context [match ?tt with [] => Err OtherError | x0 :: tl => _ end] => destruct tt as [|x0 tl] end; [discriminate|].
+  match goal with |- context [let '(t, srs) := ?c in _] => destruct c as [t srs'] end.
+  destruct (pu_loop1 _ _ _ _ _) as [[s1|st]|] eqn:E1; [| |discriminate].
+  - intros [= <- _]. change (pres_ok (PDone s1)). eapply pres_pu_loop1; [|exact E1]. exact Hs.
+  - assert (Hst : pres_ok (PCont st)) by (eapply pres_pu_loop1; [|exact E1]; exact Hs). cbn in Hst.
+    destruct (p_cut st); [now intros [= <- _]|].
+    destruct (pu_loop2 _ _ _ _ _ _ _) as [[[s2|] ro2]|] eqn:E2; [| |discriminate].
+    + intros [= <- _]. eapply pres_pu_loop2; eassumption.
+    + destruct (shift_focus _ _ _) as [s3|] eqn:E3; [|discriminate].
+      pose proof (pres_shift _ _ _ _ E3) as Hs3.
+      destruct (visible _ _ _ _ _ _ _) as [[v2|]|]; [| discriminate | discriminate].
+      destruct (ro2 <=? v_off_inset v2); [now intros [= <- _]|].
+      destruct (rev t) as [|xl rt]; [now intros [= <- _]|].
+      destruct (nthz (items s3) (t_pos xl - 1)); [|now intros [= <- _]].
+      intros H. apply (pres_lift_k _ _ _ H). intros sx. apply pres_change_sr.
+Qed.
+
+Lemma pres_set_focus s position cf s' : ViewOK s -> set_focus s position cf = Ok s' -> ViewOK s'.
+Proof.
+  intros Hs. unfold set_focus. destruct (nthz (items s) (focus s)); [|discriminate].
+  cbn [items set_pend]. destruct (nthz (items s) position); [|discriminate]. intros [= <-].
+  apply viewok_set_body_focus. now apply viewok_set_pend.
+Qed.
+
 Lemma pres_keypress s m k s' b : ViewOK s -> keypress s m k = Ok (s', b) -> ViewOK s'.
 Proof.
   intros Hs. unfold keypress.
   destruct (set_focus_complete s m true) as [s1|] eqn:E; [|discriminate].
   pose proof (pres_complete _ _ _ _ Hs E) as Hs1.
   destruct (nthz (items s1) (focus s1)) as [w|]; [|now intros [= <- _]].
-  destruct k as [| |dir].
+  destruct k as [| |dir| | | | |].
   - now apply pres_keypress_up.
   - now apply pres_keypress_down.
   - destruct (item_key w dir) as [w'|]; [|now intros [= <- _]].
     destruct (make_cursor_visible _ _) as [s2|] eqn:E2; [|discriminate]. intros [= <- _].
     eapply pres_mcv; [|eassumption]. now apply viewok_set_items.
+  - destruct (set_focus s1 0 CNone) as [s2|] eqn:E2; [|discriminate]. intros [= <- _].
+    apply viewok_set_vpend. eapply pres_set_focus; eassumption.
+  - destruct (set_focus s1 _ CNone) as [s2|] eqn:E2; [|discriminate]. intros [= <- _].
+    apply viewok_set_vpend. eapply pres_set_focus; eassumption.
+  - now apply pres_page_up.
+  - now apply pres_page_down.
+  - now intros [= <- _].
 Qed.
 
 Lemma pres_mouse s m button row s' b : ViewOK s -> mouse_press s m button row = Ok (s', b) -> ViewOK s'.
@@ -182,7 +313,7 @@ Qed.
    by the syntactic scan of listbox.py its writes also go through the two writers, so the state
    it leaves is ViewOK - that is the premise [op_ok] *)
 Definition op_ok (o : op) : Prop :=
-  match o with OSync _ o n d _ => 0 <= o /\ 0 <= n < d | _ => True end.
+  match o with OSync _ o n d _ _ => 0 <= o /\ 0 <= n < d | _ => True end.
 
 Lemma pres_step s o s' out : ViewOK s -> op_ok o -> step s o = Ok (s', out) -> ViewOK s'.
 Proof.
@@ -191,10 +322,9 @@ Proof.
   - destruct (keypress s maxrow k) as [[s1 b]|] eqn:E; [|discriminate]. intros [= <- _]. eapply pres_keypress; eassumption.
   - destruct (mouse_press s maxrow button row) as [[s1 b]|] eqn:E; [|discriminate]. intros [= <- _]. eapply pres_mouse; eassumption.
   - destruct (set_focus s position cf) as [s1|] eqn:E; [|discriminate]. intros [= <- _].
-    unfold set_focus in E. destruct (nthz (items s) (focus s)); [|discriminate].
-    cbn [items set_pend] in E. destruct (nthz (items s) position); [|discriminate]. inversion E; subst.
-    apply viewok_set_body_focus. now apply viewok_set_pend.
+    eapply pres_set_focus; eassumption.
   - intros [= <- _]. exact Ho.
+  - intros [= <- _]. unfold set_focus_valign. now apply viewok_set_vpend.
   - intros [= <- _]. now apply viewok_set_items.
   - destruct (shift_focus s maxrow oi) as [s1|] eqn:E; [|discriminate]. intros [= <- _]. eapply pres_shift; eassumption.
   - destruct (change_focus s maxrow position oi cf) as [s1|] eqn:E; [|discriminate]. intros [= <- _]. eapply pres_change; eassumption.
@@ -218,18 +348,19 @@ Lemma render_view_empty : forall its f o n d maxrow fflag, nthz its f = None ->
   render_view its f o n d maxrow fflag = Ok (repeat blank (Z.to_nat maxrow), None).
 Proof. intros. unfold render_view, visible. now rewrite H. Qed.
 
-Lemma render_no_pending s m ff : pend s = PNone ->
+Lemma render_no_pending s m ff : pend s = PNone -> vpend s = None ->
   render s m ff = match render_view (items s) (focus s) (off s) (inum s) (iden s) m ff with
                   | Ok r => Ok (s, r) | Err e => Err e end.
 Proof.
-  intros Hp. unfold render, calculate_visible, set_focus_complete, render_view. rewrite Hp.
+  intros Hp Hvp. unfold render, calculate_visible, set_focus_complete, set_focus_pending_complete, render_view.
+  rewrite Hp, Hvp.
   destruct (visible _ _ _ _ _ _ _) as [[v|]|]; reflexivity.
 Qed.
 
 Lemma render_after_history_lemma :
   forall ops s s' out maxrow fflag w,
     ViewOK s -> Forall op_ok ops -> In (Ok (s', out)) (run s ops) ->
-    pend s' = PNone -> heights_ok (items s') -> 1 <= maxrow ->
+    pend s' = PNone -> vpend s' = None -> heights_ok (items s') -> 1 <= maxrow ->
     nthz (items s') (focus s') = Some w -> cursor_ok w ->
     exists p,
       0 <= p <= zlen (all_rows (items s')) /\
@@ -241,11 +372,11 @@ Lemma render_after_history_lemma :
       (forall cy, cursor_of w maxrow fflag = Some cy ->
          nthz (window (items s') p maxrow) (rows_before (items s') (focus s') + cy - p) = Some (focus s', cy)).
 Proof.
-  intros ops s s' out maxrow fflag w Hs Hops Hin Hp Hh Hmr Hw Hc.
+  intros ops s s' out maxrow fflag w Hs Hops Hin Hp Hvp Hh Hmr Hw Hc.
   destruct (history_view_ok ops s Hs Hops s' out Hin) as [Ho Hnd].
   destruct (view_ok_lemma (items s') (focus s') (off s') (inum s') (iden s') maxrow fflag w)
     as (p & Hp1 & Er & Hbl & Hfoc & Hcur); try assumption.
   { constructor; assumption. }
-  exists p. rewrite (render_no_pending _ _ _ Hp), Er. splits; try assumption; try lia; try reflexivity.
+  exists p. rewrite (render_no_pending _ _ _ Hp Hvp), Er. splits; try assumption; try lia; try reflexivity.
   intros cy Hcy. now destruct (Hcur cy Hcy).
 Qed.
